@@ -493,9 +493,9 @@ type mustOpts struct {
 	// errReturnsCount: with skipErrEdges, a return of a freshly built / sentinel error is still an exit
 	// that counts (resource pairing: a handle must be released before such a return too)
 	errReturnsCount bool
-	stopAt       func(ssa.Instruction) bool
-	panicIsExit  bool                                      // treat panic blocks as exits too (default: only returns)
-	skipEdge     func(b *ssa.BasicBlock, succIdx int) bool // do not follow these edges
+	stopAt          func(ssa.Instruction) bool
+	panicIsExit     bool                                      // treat panic blocks as exits too (default: only returns)
+	skipEdge        func(b *ssa.BasicBlock, succIdx int) bool // do not follow these edges
 }
 
 // isErrNonNil reports, for an If, which successor index is the "error" edge
